@@ -12,9 +12,12 @@
    that the same definition is evaluated on the implementation's observation by Run.report and is what the
    theorems of Properties.v are about:  forall i, in_domain i = true -> clause_pos c i (model_run i) = None.
 
-   Status: all five clauses are theorems of Properties.v for every schedule of the domain: 1 (all_or_nothing), 2
+   Status: all clauses are theorems of Properties.v for every schedule of the domain: 1 (all_or_nothing), 2
    (kept_alive, under lapse_premise) and 3 (failure_reported) unconditionally, 4 (loop_yields) and 5 (clean_shutdown)
-   outside the guards of the known findings D19 / D20, with the refutations proved next to them.
+   outside the guards of the known findings D19 / D20, with the refutations proved next to them, and the two RESIDUAL
+   clauses 6 (clean_residual) and 7 (yields_residual) unconditionally: they state what is left of 5 and 4 under the two
+   findings, are evaluated by Run.report on every case and are never suppressed, so that a violation of clean shutdown or
+   of yielding that is not D20 / D19 itself is reported also on the inputs those findings flag.
 
    Readings fixed here:
      * "its profile's services" = the services of the profile device itself (profile_device.services) whose type is
@@ -44,6 +47,8 @@ Definition in_domain (i : input) : bool :=
   end.
 
 (* ---- known-finding guards (functions of the input, through the ghost fields of the model's run) ------------- *)
+(* Run.report uses kf_overdue for D19 and, for D20, the observation-based kf_inflight_obs defined with clause 6 below;
+   kf_inflight remains the guard of C12_clean_shutdown_partial / _refuted. *)
 (* D19: some renewal pass of the background loop started while a deadline it holds was more than the tolerance in
    the past (equivalently: the subscribe call or an earlier pass lasted longer than tolerance + a timeout granted in it) *)
 Definition kf_overdue (i : input) : bool := g_overdue (run i).
@@ -234,8 +239,106 @@ Definition lapse_premise (i : input) : bool :=
 Definition clause_alive (i : input) (o : observation) : option nat :=
   if lapse_premise i then first_false 0 (map alive_step o) else None.
 
+(* ---- clause 6: clean shutdown, residual (what is left of clause 5 under known finding D20) ------------------------ *)
+(* Clause 5 fails on the current code exactly when async_unsubscribe_services starts executing while a renewal SUBSCRIBE
+   of the background task is outstanding (D20): the SID being renewed stays routed.  This clause is clause 5 with
+   exactly that SID exempted from "nothing is routed", the exemption being computed here, from the schedule and the
+   observation alone (no field of a model run is read):
+
+     * an unsubscribe call is MADE at an AUnsubscribe step at which the list of user calls grows (the call was not
+       ignored); it STARTS EXECUTING in the first loop iteration (AIter step) after that
+     * the renewals in flight for that call = the requests (QRenew, _, Some x, by the renewal task) that were
+       outstanding (o_out) when the call was made - still outstanding, or answered between the call and that iteration,
+       so that the renewal task cannot have seen the answer before the unsubscribe call runs - or that are first seen
+       in that very iteration (sent by the renewal task in the same iteration, just before the call started executing)
+     * from the moment an unsubscribe call has returned, every routed SID is the SID x of such a renewal
+
+   Everything else clause 5 demands is demanded unconditionally: every unsubscribe call returned None, the profile holds
+   nothing, no request is outstanding (the cancelled renewal's request included), the renewal task is not pending, and
+   once an unsubscribe call has returned no request is ever sent again.  No UNSUBSCRIBE is demanded for the exempted
+   SIDs (none is sent), for every other SID "not routed" is what the handler's unsubscribe leaves.
+   A failure of this clause is never a known finding. *)
+Definition bg_renewal (q : req_entry) : list sid :=
+  match q with (QRenew, _, Some x, true) => [x] | _ => [] end.
+Definition renewals_of (log : list req_entry) (out : list rid) : list sid :=
+  flat_map (fun r => match nth_error log r with Some q => bg_renewal q | None => [] end) out.
+
+Record cacc := mkCacc {
+  c_log : list req_entry;       (* every request seen so far *)
+  c_armed : option (list rid);  (* Some out: an unsubscribe call was made, no loop iteration has run since; out = the
+                                   requests outstanding when it was made *)
+  c_exempt : list sid           (* SIDs of the renewals in flight when an unsubscribe call started executing *)
+}.
+Definition cacc0 : cacc := mkCacc [] None [].
+
+Definition res_acc (acc : cacc) (a : action) (prev o : snap) : cacc :=
+  let log := c_log acc ++ o_newreqs o in
+  match a with
+  | AUnsubscribe =>
+      if (length (o_calls prev) <? length (o_calls o))%nat
+      then mkCacc log (Some (o_out o)) (c_exempt acc)
+      else mkCacc log (c_armed acc) (c_exempt acc)
+  | AIter =>
+      match c_armed acc with
+      | Some out => mkCacc log None (c_exempt acc ++ renewals_of (c_log acc) out ++ flat_map bg_renewal (o_newreqs o))
+      | None => mkCacc log None (c_exempt acc)
+      end
+  | _ => mkCacc log (c_armed acc) (c_exempt acc)
+  end.
+
+Definition exempted (ex : list sid) (p : sid * svc) : bool := existsb (Nat.eqb (fst p)) ex.
+Definition res_step (ex : list sid) (prev o : snap) : bool :=
+  if o_div o then true else
+  forallb returned_ok (later_calls o)
+  && (if existsb is_some (later_calls o) then
+        (* an unsubscribe call has returned *)
+        forallb (exempted ex) (o_routed o) && is_nil (o_subs o) && is_nil (o_out o)
+        && negb (match o_rtask o with RtPending => true | _ => false end)
+        && (if existsb is_some (later_calls prev) then is_nil (o_newreqs o) else true)
+      else true).
+
+Fixpoint res_steps (acc : cacc) (prev : snap) (sched : list action) (o : list snap) : list bool :=
+  match sched, o with
+  | a :: sr, x :: r => let acc' := res_acc acc a prev x in res_step (c_exempt acc') prev x :: res_steps acc' x sr r
+  | _, _ => []
+  end.
+Definition clause_clean_res (i : input) (o : observation) : option nat :=
+  first_false 0 (res_steps cacc0 snap0 (i_sched i) o).
+
+(* the set exempted at the end of the run: non-empty = some unsubscribe call started executing with a renewal in flight *)
+Fixpoint res_final (acc : cacc) (prev : snap) (sched : list action) (o : list snap) : cacc :=
+  match sched, o with
+  | a :: sr, x :: r => res_final (res_acc acc a prev x) x sr r
+  | _, _ => acc
+  end.
+Definition kf_inflight_obs (i : input) (o : observation) : bool :=
+  negb (is_nil (c_exempt (res_final cacc0 snap0 (i_sched i) o))).
+
+(* ---- clause 7: the loop yields, residual (what is left of clause 4 under known finding D19) ----------------------- *)
+(* Once a section of a task runs forever the event loop is frozen: the harness' watchdog ends the run and every later
+   snapshot is div_snap, so nothing that happens "during" the spin (such as: no request is sent) is observable.  What
+   remains observable is WHERE the run stops: D19 is a spin of the renewal loop, so the first divergent step is a loop
+   iteration (AIter) and at the step before it the renewal task existed and had not ended.  A spin at any other action,
+   or in an iteration with no live renewal task (the subscribe / unsubscribe call or a per-SID unsubscribe spinning),
+   is a different violation and fails this clause whatever the guard of D19 says.  The other clauses judge every step
+   before the first divergent one as usual. *)
+Definition yields_res_step (a : action) (prev o : snap) : bool :=
+  if o_div o && negb (o_div prev) then
+    match a, o_rtask prev with
+    | AIter, RtPending => true
+    | _, _ => false
+    end
+  else true.
+Fixpoint yields_res_steps (prev : snap) (sched : list action) (o : list snap) : list bool :=
+  match sched, o with
+  | a :: sr, x :: r => yields_res_step a prev x :: yields_res_steps x sr r
+  | _, _ => []
+  end.
+Definition clause_yields_res (i : input) (o : observation) : option nat :=
+  first_false 0 (yields_res_steps snap0 (i_sched i) o).
+
 (* ---- all clauses ---------------------------------------------------------------------------------------------- *)
-Definition all_clauses : list N := [1; 2; 3; 4; 5]%N.
+Definition all_clauses : list N := [1; 2; 3; 4; 5; 6; 7]%N.
 Definition clause_pos (c : N) (i : input) (o : observation) : option nat :=
   match c with
   | 1%N => clause_aon i o
@@ -243,5 +346,7 @@ Definition clause_pos (c : N) (i : input) (o : observation) : option nat :=
   | 3%N => clause_reported i o
   | 4%N => clause_yields i o
   | 5%N => clause_clean i o
+  | 6%N => clause_clean_res i o
+  | 7%N => clause_yields_res i o
   | _ => None
   end.
